@@ -13,7 +13,10 @@ go/ast expression (plain; seeded: with ParenExpr / ExprStmt wrappers), runs the 
 pattern.Match and compares (matched?, Matcher.State) with Den.  A panic of the matcher on a (statically)
 well-formed pattern is a violation.
 
-Families: quick/full exhaustive families (MCMatcher*.tla), 64-name wide Ors (MCMatcherWide), and
+Families: quick/full exhaustive families (MCMatcher*.tla), 64-name wide Ors (MCMatcherWide), the
+absent-optional-children family (MCMatcherSlice / MCMatcherSliceFull: slice patterns x slice trees with
+every combination of present / absent Low and High; a name that meets an absent child is bound to the
+value Absent -- a key of Matcher.State with a nil value -- and recalled like any other value), and
 VERIF_SEED-generated deeper patterns whose expected result TLC computes (MCMatcherRand, module text
 generated here).
 """
@@ -37,13 +40,22 @@ def gen_tree(rng, depth):
     if depth <= 0 or rng.random() < 0.25:
         return ("id", rng.choice(IDENTS))
     r = rng.random()
-    if r < 0.55:
+    if r < 0.5:
         return ("bin", rng.choice(["+", "+", "-"]), gen_tree(rng, depth - 1), gen_tree(rng, depth - 1))
+    if r < 0.7:   # s[lo:hi:max] with absent children (None)
+        lo = gen_tree(rng, depth - 1) if rng.random() < 0.5 else None
+        hi = gen_tree(rng, depth - 1) if rng.random() < 0.5 else None
+        mx = gen_tree(rng, 0) if hi is not None and rng.random() < 0.2 else None
+        return ("slice", gen_tree(rng, min(depth - 1, 1)), lo, hi, mx)
     n = rng.choice([0, 1, 1, 2, 2, 3])
     return ("call", gen_tree(rng, min(depth - 1, 1)), [gen_tree(rng, depth - 1) for _ in range(n)])
 
 
 def tree_tla(t):
+    if t is None:
+        return "Absent"
+    if t[0] == "slice":
+        return "TSlice(%s)" % ", ".join(tree_tla(c) for c in t[1:])
     if t[0] == "id":
         return 'TId("%s")' % t[1]
     if t[0] == "bin":
@@ -92,6 +104,23 @@ class PatGen:
             return "PBin(%s, PId(PStr(\"zz\")))" % b
         return "PCall(%s, PCons(%s, PCons(PId(PStr(\"zz\")), PNil)))" % (self.leaf(), b)
 
+    def opt(self, t, depth):
+        """a pattern for an optional child (t is None: the child is absent)"""
+        r = self.rng.random()
+        if t is not None and r < 0.5:
+            return self.from_tree(t, depth)
+        if r < 0.65:
+            return 'Ref("%s")' % self.name()
+        if r < 0.75:
+            return "PNull" if t is None or self.rng.random() < 0.3 else "PAny"
+        if r < 0.82:
+            return 'Bind("%s", PAny)' % self.name()
+        if r < 0.88:
+            return 'Or2(PNull, %s)' % self.leaf()
+        if r < 0.93:
+            return 'Not(%s)' % self.rng.choice(["PNull", 'Ref("%s")' % self.name()])
+        return "PAny"
+
     def op(self):
         r = self.rng.random()
         if r < 0.5:
@@ -114,6 +143,9 @@ class PatGen:
             return self.wrap("PId(%s)" % s, depth)
         if t[0] == "bin":
             return self.wrap("PBinO(%s, %s, %s)" % (self.from_tree(t[2], depth - 1), self.op(), self.from_tree(t[3], depth - 1)), depth)
+        if t[0] == "slice":
+            return self.wrap("PSlice(%s, %s, %s, %s)" % (self.from_tree(t[1], depth - 1), self.opt(t[2], depth - 1),
+                                                         self.opt(t[3], depth - 1), self.opt(t[4], depth - 1)), depth)
         args = t[2]
         r = self.rng.random()
         if r < 0.2:
@@ -134,8 +166,11 @@ class PatGen:
             return self.leaf()
         if r < 0.4:
             return "PBinO(%s, %s, %s)" % (self.free(depth - 1), self.op(), self.free(depth - 1))
-        if r < 0.5:
+        if r < 0.47:
             return "PCall(%s, %s)" % (self.free(depth - 1), self.lst(depth - 1))
+        if r < 0.53:
+            return "PSlice(%s, %s, %s, %s)" % (self.leaf(), self.opt(None, depth - 1), self.opt(None, depth - 1),
+                                               self.rng.choice(["PAny", "PAny", "PNull", 'Ref("%s")' % self.name()]))
         if r < 0.65:
             return "Or2(%s, %s)" % (self.free(depth - 1), self.free(depth - 1))
         if r < 0.75:
@@ -279,6 +314,12 @@ NEG_CASES = [
 ]
 
 
+# (SliceExpr _ x x _) on a[:]: x is BOUND, to the absent child (State has the key, the value is nil)
+NEG_ABSENT = {"p": {"k": "slice", "x": {"k": "any"}, "lo": {"k": "ref", "n": "x"}, "hi": {"k": "ref", "n": "x"}, "max": {"k": "any"}},
+              "t": {"k": "slice", "x": {"k": "id", "n": "a"}, "lo": {"k": "absent"}, "hi": {"k": "absent"}, "max": {"k": "absent"}},
+              "ok": True, "env": {"x": {"k": "absent"}, "y": {"k": "unbound"}}}
+
+
 def negative_selftest(ctx, helper):
     """the comparison must accept the correct expectation and reject each corrupted one"""
     good = NEG_CASES[0]
@@ -288,17 +329,25 @@ def negative_selftest(ctx, helper):
     bad2["ok"] = False
     bad3 = json.loads(json.dumps(good))
     bad3["env"]["y"] = {"k": "id", "n": "a"}           # wrong subtree
+    bad4 = json.loads(json.dumps(NEG_ABSENT))
+    bad4["env"]["x"] = {"k": "unbound"}                # "bound to an absent child" must not pass for "unbound"
+    bad5 = json.loads(json.dumps(NEG_ABSENT))
+    bad5["env"]["x"] = {"k": "id", "n": "a"}
     m_good, s_good = replay(ctx, helper, [write_inline(ctx, "good.ndjson", [good])], 1, wrap=100)
     if s_good["pairs"] != 1 or s_good["match_calls"] < 6:
         raise Inconclusive("negative self-test: the good case was not run in all spellings/wrappers: %s" % s_good)
+    m_good2, s_good2 = replay(ctx, helper, [write_inline(ctx, "good2.ndjson", [NEG_ABSENT])], 1, wrap=100)
+    if s_good2["pairs"] != 1 or s_good2["pairs_binding_absent"] != 1 or s_good2["pairs_tree_with_absent_child"] != 1:
+        raise Inconclusive("negative self-test: the absent-child case was not recognised as such: %s" % s_good2)
+    m_good = m_good + m_good2
     rejected = 0
-    for i, b in enumerate((bad1, bad2, bad3)):
+    for i, b in enumerate((bad1, bad2, bad3, bad4, bad5)):
         m_bad, _ = replay(ctx, helper, [write_inline(ctx, "bad%d.ndjson" % i, [b])], 1, wrap=100)
         if m_bad:
             rejected += 1
     # on a tree with the defects the good case itself mismatches; the self-test is about the comparison
-    if rejected != 3:
-        raise Inconclusive("negative self-test: %d of 3 corrupted expectations were accepted by the comparison" % (3 - rejected))
+    if rejected != 5:
+        raise Inconclusive("negative self-test: %d of 5 corrupted expectations were accepted by the comparison" % (5 - rejected))
     return {"good_case_mismatches": len(m_good), "corrupted_rejected": rejected}
 
 
@@ -314,11 +363,15 @@ def name_limit(ctx, helper):
     return o
 
 
-def deviations(ctx):
+def deviations(ctx, only=None):
     """vacuity self-test: each named deviation of the mechanism must be refuted by TLC"""
     out = {}
-    for dev, inv in (("drop", "OpEqualsDen"), ("bare", "OpEqualsDen"), ("zero", "OpEqualsDen"), ("keep", "OpEqualsDen")):
-        r = vlib.run_tlc(ctx, "MCMatcher", "MCMatcher_dev_%s.cfg" % dev, workers=4, timeout=1800, keep_cases=False)
+    for dev, inv in (("drop", "OpEqualsDen"), ("bare", "OpEqualsDen"), ("zero", "OpEqualsDen"), ("keep", "OpEqualsDen"),
+                     ("nonnil", "OpEqualsDen")):
+        if only and dev not in only:
+            continue
+        module = "MCMatcherSlice" if dev == "nonnil" else "MCMatcher"
+        r = vlib.run_tlc(ctx, module, "MCMatcher_dev_%s.cfg" % dev, workers=4, timeout=1800, keep_cases=False)
         if not r.violated:
             raise Inconclusive("self-test: deviation %s of the mechanism is not refuted by TLC (the invariants are vacuous?)" % dev)
         out[dev] = str(r.violated)
@@ -353,7 +406,7 @@ def run(ctx):
     if ctx.quick:
         runs.append(("MCMatcher", "MCMatcher_quick.cfg", None, "quick families"))
     else:
-        extra = None
+        extra = extra_slice = None
         cap = int(os.environ.get("VERIF_C09_FULL_PATS", "0"))     # smoke-testing the thorough path: first n patterns only
         if cap:
             full = open(os.path.join(vlib.SPECS, "MCMatcherFull.tla")).read()
@@ -361,10 +414,19 @@ def run(ctx):
                 "\\cup FamL \\cup FamD)", "\\cup FamL \\cup FamD), 1, %d)" % cap)
             if "SubSeq(SetToSeq(" not in full or ", 1, %d)" % cap not in full:
                 raise Inconclusive("cannot cap MCMatcherFull")
+            sf = open(os.path.join(vlib.SPECS, "MCMatcherSliceFull.tla")).read()
+            sf2 = sf.replace("SliceFullPats  == SetToSeq(FamNf)", "SliceFullPats  == SubSeq(SetToSeq(FamNf), 1, %d)" % cap)
+            if sf2 == sf:
+                raise Inconclusive("cannot cap MCMatcherSliceFull")
             extra = {"MCMatcherFull.tla": full}
+            extra_slice = {"MCMatcherSliceFull.tla": sf2}
             ctx.note("thorough families capped to the first %d patterns (VERIF_C09_FULL_PATS)" % cap)
         runs.append(("MCMatcherFull", "MCMatcher_full.cfg", extra, "full families"))
     runs.append(("MCMatcherWide", "MCMatcher_wide.cfg", None, "64 names"))
+    if ctx.quick:
+        runs.append(("MCMatcherSlice", "MCMatcher_slice.cfg", None, "absent optional children (slice family)"))
+    else:
+        runs.append(("MCMatcherSliceFull", "MCMatcher_slicefull.cfg", extra_slice, "absent optional children (full slice family)"))
     n_rand = int(os.environ.get("VERIF_C09_RAND", "250" if ctx.quick else "4000"))
     text, n_rp, n_rt = rand_module(ctx, n_rand, 30 if ctx.quick else 60)
     runs.append(("MCMatcherRand", "MCMatcher_rand.cfg", {"MCMatcherRand.tla": text}, "seeded deeper patterns"))
@@ -377,11 +439,14 @@ def run(ctx):
         raise Inconclusive("h-pattern replayed %d pairs, TLC decided %d" % (summary["pairs"], pairs_expected))
     if summary["expected_matches"] * 10 < summary["pairs"]:
         raise Inconclusive("vacuous: only %d of %d pairs are expected to match" % (summary["expected_matches"], summary["pairs"]))
+    if summary["pairs_binding_absent"] < 100:
+        raise Inconclusive("vacuous: only %d pairs bind a name to an absent child" % summary["pairs_binding_absent"])
     drift = report(ctx, mism, summary)
 
     neg = negative_selftest(ctx, helper)
     limit = name_limit(ctx, helper)
-    dev = deviations(ctx) if not ctx.quick else {}
+    # quick: only the (cheap) deviation of the absent-children family; thorough: all five
+    dev = deviations(ctx) if not ctx.quick else deviations(ctx, only=("nonnil",))
 
     ctx.coverage = {
         "states": sum(r.distinct for r in results),
@@ -392,6 +457,8 @@ def run(ctx):
         "invariants": INVS,
         "patterns": summary["patterns"], "trees": summary["trees"], "pairs_replayed": summary["pairs"],
         "pairs_expected_to_match": summary["expected_matches"], "real_match_calls": summary["match_calls"],
+        "pairs_tree_with_absent_child": summary["pairs_tree_with_absent_child"],
+        "pairs_binding_a_name_to_absent": summary["pairs_binding_absent"],
         "spellings": ["sugar", "explicit", "mixed(seeded)"], "tree_variants": ["plain", "paren(seeded)", "exprstmt(seeded)"],
         "seeded_patterns_generated": n_rp, "seeded_trees": n_rt,
         "mismatches": summary["mismatches"], "mismatches_by_kind": summary["by_kind"], "drift_spelling_parse": drift,
@@ -400,8 +467,9 @@ def run(ctx):
         "trusted_base": ["TLC 1.8.0", "go toolchain", "go/ast as the tree representation"],
     }
     ctx.assumptions = [
-        "abstract trees: Ident, BinaryExpr (+,-), CallExpr with 0..3 arguments, nesting depth <= 3; wrappers ParenExpr/ExprStmt by seeded rendering",
-        "abstract patterns: Any, name, name@p / (Binding), (Ident s), (BinaryExpr x op y), (CallExpr f args), [] / h:t lists, Or (2-3, wide: up to 64 alternatives), Not; strings and tokens as bound values",
+        "abstract trees: Ident, BinaryExpr (+,-), CallExpr with 0..3 arguments, SliceExpr with present or absent (nil) Low/High/Max, nesting depth <= 3; wrappers ParenExpr/ExprStmt by seeded rendering",
+        "abstract patterns: Any, name, name@p / (Binding), (Ident s), (BinaryExpr x op y), (CallExpr f args), (SliceExpr x lo hi max), the atom nil, [] / h:t lists, Or (2-3, wide: up to 64 alternatives), Not; strings, tokens and Absent (nil) as bound values",
+        "absent optional children are modelled for SliceExpr only (IfStmt.Init/Else, ForStmt parts etc. reach Binding.Match through the same matchNodeAST field loop); the atom nil is kept out of list patterns / call arguments (nil slice vs empty slice is not modelled)",
         "well-formedness is the static condition WellFormed of Matcher.tla (no defining occurrence where the name may already be bound); TLC checks that it implies Den never meets a rebinding",
         "type-aware nodes (Symbol, Builtin, Object, IntegerLiteral) and the remaining ast node types are outside the model (they bind like Any / like the modelled node patterns)",
     ]
